@@ -16,7 +16,7 @@ CHAIN_KINDS = ['add', 'add', 'add_from', 'star', 'recip', 'tpath', 'tpath', 'tpa
 
 def graph_strategy(selfloops=True, classes=('DynGraph', 'DynDiGraph'), max_ops=12, uni=(3, 5), tier='quick', chains=False):
     kw = dict(classes=classes, max_ops=max_ops, min_ops=3, rejects=False, kinds=CHAIN_KINDS if chains else KINDS,
-              node_kinds=('int', 'safestr'), attrs=False, horizon=3, maxlen=3, uni=uni,
+              node_kinds=('int', 'safestr', 'pathstr'), attrs=False, horizon=3, maxlen=3, uni=uni,
               bases=[0, 0, 0, 1, -7, -3, -2, 1000, -10 ** 6, 10 ** 9, 2 ** 63 - 3])   # the last one: ids on both sides of 2**63
     # two thirds of the graphs are free of self-loops: a self-loop on the root puts the query inside the
     # footprint of the listed root_selfloop_in_window finding, where C13/C15 can say less.  One graph in
